@@ -760,80 +760,6 @@ def phase_multi(ctx, arg):
 
 
 
-def _expr_vars(e, out):
-    if e[0] == "var":
-        out.add(e[1])
-    elif e[0] == "bin":
-        _expr_vars(e[3], out)
-        if not isinstance(e[4], int):
-            _expr_vars(e[4], out)
-    elif e[0] == "un":
-        _expr_vars(e[2], out)
-    return out
-
-
-def _cond_vars(c, out):
-    if c[0] == "cmp":
-        _expr_vars(c[3], out)
-        _expr_vars(c[4], out)
-    elif c[0] == "not":
-        _cond_vars(c[1], out)
-    else:
-        _cond_vars(c[1], out)
-        _cond_vars(c[2], out)
-    return out
-
-
-def _block_uses_defs(b, uses, defs):
-    for st in b:
-        k = st[0]
-        if k in ("assign", "dead"):
-            _expr_vars(st[2], uses)
-            defs.add(st[1])
-        elif k == "if":
-            _cond_vars(st[1], uses)
-            _block_uses_defs(st[2], uses, defs)
-            _block_uses_defs(st[3], uses, defs)
-        elif k == "while":
-            _cond_vars(st[1], uses)
-            _block_uses_defs(st[2], uses, defs)
-        elif k == "dowhile":
-            _block_uses_defs(st[1], uses, defs)
-            _cond_vars(st[2], uses)
-        elif k == "switch":
-            _expr_vars(st[1], uses)
-            for ks, bb, ft in st[2]:
-                _block_uses_defs(bb, uses, defs)
-            if st[3] is not None:
-                _block_uses_defs(st[3], uses, defs)
-        elif k == "return":
-            _expr_vars(st[1], uses)
-
-
-def has_def_used_in_loop_whose_operand_is_redefined_there(body):
-    """x = f(y) before a loop; the loop uses x and assigns y: a decompiler that substitutes f(y) for x inside the loop changes the meaning"""
-    def walk(block):
-        for i, st in enumerate(block):
-            if st[0] == "assign":
-                ops = _expr_vars(st[2], set())
-                if ops:
-                    for later in block[i + 1:]:
-                        if later[0] in ("while", "dowhile"):
-                            uses, defs = set(), set()
-                            _block_uses_defs(later[2] if later[0] == "while" else later[1], uses, defs)
-                            _cond_vars(later[1] if later[0] == "while" else later[2], uses)
-                            if st[1] in uses and (ops & defs) and st[1] not in defs:
-                                return True
-                        if later[0] == "assign" and later[1] == st[1]:
-                            break
-            for sub in ([st[2], st[3]] if st[0] == "if" else [st[2]] if st[0] == "while" else [st[1]] if st[0] == "dowhile" else
-                        ([bb for ks, bb, ft in st[2]] + ([st[3]] if st[3] is not None else [])) if st[0] == "switch" else []):
-                if walk(sub):
-                    return True
-        return False
-    return walk(body)
-
-
 def finish_unattributed(ctx, p, pool):
     c = p["cur"]
     ctx.count("unattributed")
@@ -863,12 +789,6 @@ def finish_unattributed(ctx, p, pool):
         ctx.count("attributed_by_source_evidence")
         report(ctx, c, "declared-type-of-reused-register-taken-from-another-definition", what_of(p["symptom"]), p["detail"],
                dict(extra, attribution="javac rejects a declaration line '<type> vN = <expr of a wider type>'"))
-        return
-    if p["symptom"] == "wrong-value" and has_def_used_in_loop_whose_operand_is_redefined_there(p["orig"].meta.body) and c.src and "while" in c.src:
-        # the generator's AST shows the situation: x = f(y) before a loop, the loop uses x and assigns y; the decompiled loop body contains f(y)
-        ctx.count("attributed_by_source_evidence")
-        report(ctx, c, "definition-propagated-into-loop-past-redefinition-of-its-operand", what_of(p["symptom"]), p["detail"],
-               dict(extra, attribution="the method has 'x = f(y); loop { ... x ... y = ... }' and the printed loop body recomputes f(y) in place of x"))
         return
     nested = any(f.startswith("nest:") and "/" in f for f in feats) or sum(1 for f in feats if f.startswith("seq:")) >= 1
     if any(f.endswith("-switch") or f == "ctl:do-while" for f in feats) or (pool == "P5" and nested):
